@@ -558,7 +558,10 @@ def check_join_keys(case):
     gc = [str(x) for x in obs.labels_of(r.columns)]
     if 'l_v' not in gc or 'r_v' not in gc:
         raise Failure('join-columns', '%s columns %s' % (desc, gc))
-    got = sorted((int(a), int(b)) for a, b in zip(arr_list(r['l_v'].values), arr_list(r['r_v'].values)))
+    pay = list(zip(arr_list(r['l_v'].values), arr_list(r['r_v'].values)))
+    if any(not isinstance(x, (int, np.integer)) or isinstance(x, (bool, np.bool_)) for ab in pay for x in ab):
+        raise Failure('join-fill', '%s: payload cells %s are not the integers joined / the fill value -1' % (desc, short(pay, 300)))
+    got = sorted((int(a), int(b)) for a, b in pay)
     if got != sorted(want):
         raise Failure('join-rows', '%s: matched (left payload, right payload) pairs %s expected %s; left key rows %s, right key rows %s' % (
             desc, short(got, 300), short(sorted(want), 300), short([_side_key(ls, a) for a in lrows], 200), short([_side_key(rs, b) for b in rrows], 200)))
